@@ -113,7 +113,8 @@ def tetr_project(voigt_vector):
     See [Browaeys & Chevrot (2004)](https://doi.org/10.1111/j.1365-246X.2004.02415.x).
 
     """
-    out = ortho_project(voigt_vector)
+    # Averages are not integers: never accumulate them in the (possibly integer) dtype of the input.
+    out = ortho_project(voigt_vector).astype(np.float64)
     for i, j in ((0, 1), (3, 4), (6, 7)):
         for k in range(2):
             out[i + k] = 0.5 * (voigt_vector[i] + voigt_vector[j])
